@@ -38,6 +38,8 @@ structure St where
   pend : List (Nat × Nat × List Nat) := []       -- parked flush: incarnation ↦ (model group, alerts it will delete)
   incOf : List (Nat × Nat) := []                 -- incarnation ↦ model group
   sched : List Act := []                         -- the micro-step schedule replayed so far
+  mutedMk : Bool := false                            -- the group marker says "muted": a (muted) flush has entered the stage
+                                                 -- since maintenance last DELETED the group's map entry
 
 def insN (x : Nat) : List Nat → List Nat
   | [] => [x]
@@ -52,8 +54,12 @@ def sortS (l : List String) : List String := l.foldr insS []
 def showGroup (l : List Nat) : String := ".".intercalate ((sortN l).map toString)
 def showGroups (gs : List (List Nat)) : String := joinList "," (sortS (gs.map showGroup))
 
+/-- the dump is `<m|u>|<groups>`: the muted flag of the group marker, then the groups -/
+def groupsPart (s : String) : String := match s.splitOn "|" with | [_, g] => g | _ => s
+def mutedFlag (s : String) : Option Bool := match s.splitOn "|" with | [f, _] => some (f = "m") | _ => none
+
 def parseGroups (s : String) : List (List Nat) :=
-  (splitList "," s).map fun g => (g.splitOn ".").map toNat!
+  (splitList "," (groupsPart s)).map fun g => (g.splitOn ".").map toNat!
 
 def parseEv (s : String) : Option Ev :=
   if s = "M" then some .maint
@@ -130,7 +136,7 @@ def applyEv (dump : List (List Nat)) (tag : String) (acc : St × List Msg) (e : 
     let d0 : List Msg := if flagDiff.isEmpty then [] else [.diff "flush.resolved-flags" "as-submitted" s!"{tag} differ for {flagDiff}"]
     match findFlushing σ.m names with
     | none =>
-      ({ σ with ok := false }, out ++ pf ++ d0 ++
+      ({ σ with ok := false, mutedMk := true }, out ++ pf ++ d0 ++
         (if σ.ok then [Msg.diff "flush.group" "no-live-published-group-with-these-alerts" s!"{tag} F{inc}:{showGroup names}"] else []))
     | some g =>
       let known := σ.incOf.lookup inc
@@ -138,7 +144,7 @@ def applyEv (dump : List (List Nat)) (tag : String) (acc : St × List Msg) (e : 
         | some g' => if g' = g then [] else [.diff "flush.incarnation" s!"group#{g'}" s!"{tag} F{inc} now matches group#{g}"]
         | none => []
       let del := (alerts.filter (·.2)).map (·.1)
-      ({ σ with pend := (inc, g, del) :: σ.pend.filter (·.1 ≠ inc), incOf := (inc, g) :: σ.incOf.filter (·.1 ≠ inc) },
+      ({ σ with mutedMk := true, pend := (inc, g, del) :: σ.pend.filter (·.1 ≠ inc), incOf := (inc, g) :: σ.incOf.filter (·.1 ≠ inc) },
         out ++ pf ++ d0 ++ d1 ++ [.tag "flush:parked"])
   | .maint =>
     match lookup σ.m.map theFp with
@@ -156,7 +162,13 @@ def tail (σ : St) (evs grp : String) (tag : String) : St × List Msg :=
   let (σ1, out) := (parseEvs evs).foldl (applyEv dump tag) (σ, [])
   let cmp := if σ1.ok then expectEq "groups" (showGroups (modelGroups σ1.m)) (showGroups dump) else []
   let σ2 := if cmp.isEmpty then σ1 else { σ1 with ok := false }
-  (σ2, out ++ cmp ++ invChecks σ2 dump tag)
+  -- C15: a group whose (last) flush was muted is reported as muted until its map entry is collected
+  let mkMsgs : List Msg := match mutedFlag grp with
+    | some f => if !σ2.ok ∨ f = σ2.mutedMk then [] else
+        [Msg.propfail "route_gate" (if σ2.mutedMk then "muted-marker-lost" else "stale-muted-marker")
+          s!"{tag}: a muted flush of the group {if σ2.mutedMk then "has" else "has not"} happened since its map entry was last collected, the group marker reports muted={f}"]
+    | none => []
+  (σ2, out ++ cmp ++ mkMsgs ++ invChecks σ2 dump tag)
 
 def stepTags (before : Option Thr) (m' : State) (t : Nat) (maintParked : Bool) : List Msg :=
   match before, lookup m'.thrs t with
@@ -263,6 +275,7 @@ def step (σ : St) (op obs : List String) : St × List Msg :=
         match runActs σ [.mStep] with
         | none => let (σ2, out) := tail { σ with ok := false } evs grp tag; (σ2, [.diff "mend" "not-enabled" res] ++ out)
         | some σ1 =>
+          let σ1 := if mapped = some σ.m.mg then { σ1 with mutedMk := false } else σ1   -- DeleteByGroupKey only after a successful delete
           let tg := if mapped = some σ.m.mg then [Msg.tag "maint:CompareAndDelete-deleted"]
                     else if mapped.isSome then [Msg.tag "maint:CompareAndDelete-refused(slot-holds-recreated-group)"]
                     else [Msg.tag "maint:CompareAndDelete-refused(slot-empty)"]
